@@ -37,7 +37,22 @@ open BB BB.Lemmas
 
 /-! ## good items -/
 
-/-- "assembles fine in any context": what may stand before and after the faulty item -/
+/-- "assembles fine in any context": what may stand before and after the faulty item.
+
+    SCOPE (review finding X5).  "Any context" is meant literally: a good item must go through every
+    pass at EVERY position and under EVERY label table (`Passes`, `GoodInstr.res` quantify over all
+    of them, the empty table included).  Consequently
+    * there is no constructor for a constant definition (`K = 5`): the surrounding program defines
+      no constants, and no good item refers to one;
+    * the surrounding program may DEFINE labels (`label`) but no good item may REFER to one: a branch
+      or jump to a label of the program (`beq x0, x0, start`, `jal ra, start`, `j start`), `%offset L`,
+      `%position(L, …)`, `dw L` are not `GoodInstr` / `GoodItem`, although the model assembles such
+      programs fine (audit/front/A3_c15.lean proves the three refutations).  Admitting them needs
+      an invariant that bounds the label values over all layouts the passes go through, which the
+      context-free formulation deliberately avoids;
+    * immediates of good items are literal (`LitImm`): the same value under every environment.
+    So the theorems below say: a fault among label DEFINITIONS, data, alignment and instructions
+    with literal operands is reported at its own line - not yet: among arbitrary correct code. -/
 inductive GoodItem (H : Hooks) (c : Bool) : Item → Prop
   | label (line : Line) (name : String) : GoodItem H c (.label line name)
   | blob (line : Line) (d : List Nat) : GoodItem H c (.blob line d)
@@ -94,6 +109,10 @@ theorem GoodItem.not_constant {H : Hooks} {c : Bool} {y : Item} (h : GoodItem H 
 /-! ## the generic statement -/
 
 /-- **A fault placed anywhere among good items is reported at its own line.**
+    "Good items" is narrower than "correct code" (see `GoodItem`, review finding X5): `pre` and `post`
+    may define labels but contain no item that refers to a label or a constant and no constant
+    definition - label definitions, blobs, strings, positive aligns, instructions and
+    pseudo-instructions with literal operands, data directives with literal values.
     `pre` and `post` consist of good items (labels included, pairwise different over the whole program);
     `x` dies with `.asm line` in every context whose label table satisfies `Q` - an invariant the
     label-shifting rule preserves and the program's own label table satisfies.  Both modes. -/
